@@ -447,6 +447,61 @@ func main() {
 		x, y := float64(k%4), float64(k/4)
 		return orb.Ring{{x, y}, {x + 1, y}, {x + 1, y + 1}, {x, y + 1}, {x, y}}
 	}
+	// several holes: each hole is clipped on its own and dropped when nothing of it remains, wherever it stands in the
+	// ring list (in particular right after a dropped one)
+	{
+		sq := func(x0, y0, x1, y1 float64) orb.Ring {
+			return orb.Ring{{x0, y0}, {x0, y1}, {x1, y1}, {x1, y0}, {x0, y0}}
+		}
+		mbox := orb.Bound{Min: orb.Point{0, 0}, Max: orb.Point{10, 10}}
+		mouter := orb.Ring{{-20, -20}, {30, -20}, {30, 30}, {-20, 30}, {-20, -20}}
+		holeMenu := []orb.Ring{
+			sq(2, 2, 4, 4),     // inside the box
+			sq(15, 15, 18, 18), // away from the box: dropped
+			sq(8, 3, 12, 6),    // across the right side
+			sq(-5, -5, -2, -2), // away from the box: dropped
+			sq(6, 8, 7, 13),    // across the top side
+		}
+		r.Explore("polygon-many-holes", fmt.Sprintf("box [0,10]^2 in a large outer ring x every ordered list of 1..3 distinct holes out of %d (inside, across a side, away from the box): clip.Polygon / MultiPolygon / Geometry = the outer ring and every hole clipped on its own, empty ones dropped", len(holeMenu)), mc.Opts{MaxDev: -1}, func(c *mc.Ctx) {
+			k := 1 + c.Choose(3)
+			used := map[int]bool{}
+			poly := orb.Polygon{mouter.Clone()}
+			for len(poly) <= k {
+				h := c.Choose(len(holeMenu))
+				if used[h] {
+					c.Skip()
+					return
+				}
+				used[h] = true
+				poly = append(poly, holeMenu[h].Clone())
+			}
+			want := orb.Polygon{clip.Ring(mbox, mouter.Clone())}
+			for _, h := range poly[1:] {
+				if rh := clip.Ring(mbox, h.Clone()); rh != nil {
+					want = append(want, rh)
+				}
+			}
+			desc := fmt.Sprintf("box=%v polygon=%v", mbox, poly)
+			got := clip.Polygon(mbox, poly.Clone())
+			if !refgeom.Equal(got, want) {
+				c.Failf("polygon", "clip.Polygon = %v, want %v | %s", got, want, desc)
+			}
+			for _, rg := range got {
+				for _, p := range rg {
+					if !mbox.Contains(p) {
+						c.Failf("vertex-outside", "clip.Polygon result vertex %v outside the box | %s", p, desc)
+					}
+				}
+			}
+			if gm := clip.MultiPolygon(mbox, orb.MultiPolygon{poly.Clone(), {sq(40, 40, 41, 41)}}); !refgeom.Equal(gm, orb.MultiPolygon{want}) {
+				c.Failf("multipolygon", "clip.MultiPolygon = %v, want %v | %s", gm, orb.MultiPolygon{want}, desc)
+			}
+			if gg := clip.Geometry(mbox, poly.Clone()); !refgeom.Equal(gg, want) {
+				c.Failf("generic", "clip.Geometry = %v, want %v | %s", gg, want, desc)
+			}
+			c.NonTrivial()
+		})
+	}
 	r.Explore("nothing-remains", "12 boxes x every pair of unit squares of the 4x4 cell grid as a 2-member MultiPolygon and as a Collection (also nested and mixed with a point): the generic clip returns nil exactly when nothing remains, and mvt Layer.Clip drops the feature", mc.Opts{MaxDev: -1, Split: 2}, func(c *mc.Ctx) {
 		box := boxes[c.Choose(12)]
 		a, b := unit(c.Choose(16)), unit(c.Choose(16))
